@@ -68,10 +68,23 @@ Theorem C03_read_merges_pure : forall ops, Forall mop_ok ops -> reported (ops ++
 Proof. exact reported_get_pure. Qed.
 Print Assumptions C03_read_merges_pure.
 
+(* what must not be lost: every range given lies inside one of the ranges that are left (false of the tree before
+   fix 102af9e: a range lying under the bounding box of a join without overlapping any of the joined ranges was
+   dropped - MergeCell C3:D4, B4:B6, B2:C3 reported B2:D4 only) *)
+Theorem C03_norm_cover : forall cells, Forall rect_ok cells ->
+  forall r, In r cells -> exists r', In r' (norm cells) /\ contains r' r = true.
+Proof. exact norm_cover. Qed.
+Print Assumptions C03_norm_cover.
+Theorem C03_merges_cover : forall ops, Forall mop_ok ops ->
+  forall r, In r (merge_run ops) -> exists r', In r' (reported ops) /\ contains r' r = true.
+Proof. exact reported_cover. Qed.
+Print Assumptions C03_merges_cover.
+
 (* non-vacuity: a chain whose last link joins ranges that none of the earlier unions touched (the case the tree
    before fix 1e15404 left overlapping), and a cross that UnmergeCell does not see *)
 Example C03_merge_ex :
   reported [MMerge (1,1,2,2); MMerge (2,2,3,3); MMerge (3,3,4,4); MMerge (7,7,8,8); MMerge (4,4,7,7)] = [(1,1,8,8)] /\
   reported [MMerge (2,2,3,9); MMerge (5,2,6,3); MGet; MMerge (1,1,5,2)] = [(1,1,6,9)] /\
-  reported [MMerge (1,3,3,3); MMerge (5,5,6,6); MUnmerge (2,1,2,5)] = [(1,3,3,3); (5,5,6,6)].
+  reported [MMerge (1,3,3,3); MMerge (5,5,6,6); MUnmerge (2,1,2,5)] = [(1,3,3,3); (5,5,6,6)] /\
+  reported [MMerge (3,3,4,4); MMerge (2,4,2,6); MMerge (2,2,3,3)] = [(2,2,4,6)].
 Proof. vm_compute. repeat split. Qed.
